@@ -1284,3 +1284,11 @@ mod test {
         assert!(reader.is_err());
     }
 }
+
+// Verification hook (guard: cfg(kani), set only by `cargo kani`); harness code lives outside the repository.
+#[cfg(kani)]
+mod verif_h {
+    #[allow(unused_imports)]
+    use super::*;
+    include!(concat!(env!("ZIP_VERIF_HARNESS_DIR"), "/h_read.rs"));
+}
